@@ -1,11 +1,15 @@
 // Package context (import path …/verifshim/vctx) replaces "context" inside the
-// instrumented copy of vaxis: deadlines are virtual timers of vtime.
+// instrumented copy of vaxis: deadlines are virtual timers of vtime, and the
+// Done channel is closed through vsched so that the controlled scheduler knows
+// about it (outside an execution vsched.Close is a plain close).
 package context
 
 import (
 	stdctx "context"
 	"sync"
+	stdtime "time"
 
+	"git.sr.ht/~rockorager/vaxis/verifshim/vsched"
 	vtime "git.sr.ht/~rockorager/vaxis/verifshim/vtime"
 )
 
@@ -22,35 +26,73 @@ var (
 func Background() Context { return stdctx.Background() }
 func TODO() Context       { return stdctx.TODO() }
 
-func WithCancel(parent Context) (Context, CancelFunc) { return stdctx.WithCancel(parent) }
+type vctx struct {
+	parent Context
+	done   chan struct{}
+	mu     sync.Mutex
+	err    error
 
-type deadlineCtx struct {
-	Context
-	mu  sync.Mutex
-	err error
+	children []*vctx
 }
 
-func (d *deadlineCtx) Err() error {
-	d.mu.Lock()
-	defer d.mu.Unlock()
-	if d.err != nil {
-		return d.err
+func (c *vctx) Deadline() (stdtime.Time, bool) { return stdtime.Time{}, false }
+func (c *vctx) Done() <-chan struct{}          { return c.done }
+func (c *vctx) Value(key any) any              { return c.parent.Value(key) }
+func (c *vctx) Err() error {
+	c.mu.Lock()
+	defer c.mu.Unlock()
+	return c.err
+}
+
+func (c *vctx) cancel(err error) {
+	c.mu.Lock()
+	if c.err != nil {
+		c.mu.Unlock()
+		return
 	}
-	return d.Context.Err()
+	c.err = err
+	kids := c.children
+	c.mu.Unlock()
+	vsched.Close(c.done)
+	for _, k := range kids {
+		k.cancel(err)
+	}
+}
+
+func newCtx(parent Context) *vctx {
+	c := &vctx{parent: parent, done: make(chan struct{})}
+	if pd := parent.Done(); pd != nil {
+		if parent.Err() != nil {
+			c.cancel(parent.Err())
+		} else if vsched.S == nil {
+			// free-running only: under the scheduler the harness passes contexts of this package
+			go func() {
+				select {
+				case <-pd:
+					c.cancel(parent.Err())
+				case <-c.done:
+				}
+			}()
+		} else if p, ok := parent.(*vctx); ok {
+			p.mu.Lock()
+			p.children = append(p.children, c)
+			p.mu.Unlock()
+		}
+	}
+	return c
+}
+
+func WithCancel(parent Context) (Context, CancelFunc) {
+	c := newCtx(parent)
+	return c, func() { c.cancel(Canceled) }
 }
 
 // WithTimeout returns a context cancelled when the virtual timer fires.
 func WithTimeout(parent Context, d vtime.Duration) (Context, CancelFunc) {
-	inner, cancel := stdctx.WithCancel(parent)
-	dc := &deadlineCtx{Context: inner}
-	t := vtime.AfterFunc(d, func() {
-		dc.mu.Lock()
-		dc.err = stdctx.DeadlineExceeded
-		dc.mu.Unlock()
-		cancel()
-	})
-	return dc, func() {
+	c := newCtx(parent)
+	t := vtime.AfterFunc(d, func() { c.cancel(DeadlineExceeded) })
+	return c, func() {
 		t.Stop()
-		cancel()
+		c.cancel(Canceled)
 	}
 }
